@@ -19,6 +19,17 @@ CHECKS = {
         'construction is covered by C08.',
         'DESIGN.md §4 C10',
     ),
+    'C06': (
+        'exploration',
+        'Hypothesis strategies per storable domain driven through real tasks in real chains; round-trip oracle with '
+        'type-strict equality and before/after file digests',
+        'For every storable data type a generated value is returned by a real task, read back by the computing chain and '
+        'by fresh chains on the same directory, optionally recomputed (forced) with a second value over the first; all '
+        'must be type-strictly equal to what run returned, and loading must leave every stored file byte-identical.',
+        'Later chains are new Chain objects in the same process; NaN/inf, >64-bit ints, non-str keys, tuples, object '
+        'arrays are outside the stated domain.',
+        'DESIGN.md §4 C06',
+    ),
     'C11': (
         'exploration',
         'Hypothesis-generated structures/strings from a placeholder grammar against a hand-written reference substituter; '
